@@ -9,7 +9,7 @@ the Go source on every run (`Gen.Preds`):
  * the character classes the lexer model uses are the Go functions (`isDigit`, `isLetter`, …);
  * the model's Loc functions compose as in Go (`GetRangeLoc`, `GetRangeLocExcludeEnd`).
 NOT proved (partial): the unbounded statement "for every input the lexer model's identifier Loc is
-the true (line, UTF-16 column) of its bytes outside classes K1–K5".  It is checked instead on every
+the true (line, UTF-16 column) of its bytes outside classes K3–K5 (K1 escapes and K2 long brackets were repaired)".  It is checked instead on every
 identifier of every generated document by comparing the model (= real lexer, by correspondence) with
 S-col (Spec/Col.lean), the classes being decidable predicates of the line prefix.
 -/
@@ -82,13 +82,17 @@ theorem escape_columns_exact :
   decide +kernel
 #print axioms escape_columns_exact
 
-/-- class K2 is inhabited: behind a long bracket the column is counted from the END of that construct -/
-theorem K2_witness :
-    let src : Bytes := bytesOfString "s = [[ab]] x"
-    let toks := (lexAll src []).1
-    ((toks.filter (fun t => t.tok.kind == .ident)).map (fun t => (t.tok.from_ - t.tok.lineStart, (Col.posOfOffset src t.tok.offFrom).2))).getLast? ≠
-      some (11, 11) := by
+/-- after the repair of the long-bracket line start (former class K2): behind a long string or a long comment —
+    on one line, or on the line where a multi-line one ends, with non-ASCII text in it — the identifier is
+    reported at its true column -/
+theorem long_bracket_columns_exact :
+    let idCols := fun (src : Bytes) =>
+      (((lexAll src []).1.filter (fun t => t.tok.kind == .ident)).map
+        (fun t => (t.tok.from_ - t.tok.lineStart, (Col.posOfOffset src t.tok.offFrom).2)))
+    idCols (bytesOfString "s = [[ab]] x") = [(0, 0), (11, 11)] ∧
+    idCols (bytesOfString "f(--[[int]] a, --[==[s]==] b)") = [(0, 0), (12, 12), (27, 27)] ∧
+    idCols ([115, 32, 61, 32, 91, 91, 97, 10, 98, 0xE4, 0xB8, 0xAD, 93, 93, 32, 120]) = [(0, 0), (5, 5)] := by
   decide +kernel
-#print axioms K2_witness
+#print axioms long_bracket_columns_exact
 
 end LuaHelper.C04
